@@ -85,7 +85,6 @@ package gateway
 //@ func handlePanic()
 //@   property C26
 //@   nopanic
-//@   modifies *
 
 //@ func (Gateway).DeRegisterSwamp(g, ctx, in) (resp, err)
 //@   property C26
